@@ -182,11 +182,10 @@ pub fn c12_specs(thorough: bool) -> Vec<Spec> {
 }
 
 pub fn check_c12(tier: &str) -> ! {
-	let thorough = tier == "thorough";
 	let mut rep = Report::new("C12", tier, "fault_enumeration");
 	crate::seqchecks::seq_assumptions(&mut rep);
 	rep.assumptions.push("a raw-operation fault is a panic raised instead of the operation's effect (the convention of the repository's tests/evil_*.rs)".into());
-	let specs = c12_specs(thorough);
+	let specs = c12_specs(true);
 	let infos: Vec<Option<SpecInfo>> = probe_specs(&specs);
 	let flavours = [Flavour::Guard, Flavour::GuardUnlock, Flavour::Try, Flavour::ScopedLent, Flavour::ScopedOwned, Flavour::ScopedTryLent, Flavour::ScopedTryOwned];
 	// baseline cases
@@ -200,9 +199,7 @@ pub fn check_c12(tier: &str) -> ! {
 		}
 		for a in asg {
 			for f in flavours {
-				if !thorough && matches!(f, Flavour::GuardUnlock | Flavour::ScopedOwned | Flavour::ScopedTryOwned) {
-					continue;
-				}
+
 				for write in [true, false] {
 					if !write && !info.sharable {
 						continue;
